@@ -19,7 +19,7 @@ from pyvc.contracts import FnContract, LoopSpec, Raises
 from pyvc.values import VBool, VExt, VFunc, VInt, VSeq, VUnk, ext_sort
 from pyvc.verify import p_ext, p_obj, p_int, p_real, p_opt, p_str
 from pyvc import ops
-from pyvc.values import NONE, fresh_name
+from pyvc.values import NONE, VNoneT, fresh_name
 from contracts import common
 
 ZB = "sharepoint2text/parsing/extractors/util/zip_bomb.py"
@@ -112,9 +112,40 @@ def entry_loop_roles():
         loops = sorted((n for n in _ast.walk(fnode) if isinstance(n, (_ast.For, _ast.While))), key=lambda n: (n.lineno, n.col_offset))
         return loops.index(lp), roles
     except LookupError as e:
+        try:
+            up = _upfront_totals(m, "validate_zipfile")
+        except Exception:  # noqa -- not a shape read here
+            up = None
+        if up is not None:
+            return up
         return 0, str(e)
     except (OSError, SyntaxError, KeyError) as e:
         return 0, f"{type(e).__name__}: {e}"
+
+
+def _upfront_totals(m, qual):
+    """Round 6: the container-wide totals are not accumulated in the entry loop but taken before it as `t = sum(<comprehension
+    over SEQ>)` (top-level statements of the function) and the entry loop is the `for` over the same SEQ: (loop ordinal, {}) --
+    the invariant then speaks about the entries only; the totals are tied to the spec totals by the fold lemma the executor
+    emits where the `sum` is evaluated (C11Executor._upfront_sum).  None when this is not the shape."""
+    import ast as _ast
+    from contracts import C11_roles
+    fn = m.functions[qual]
+    sums = {}
+    for stmt in fn.body:
+        if isinstance(stmt, _ast.Assign) and len(stmt.targets) == 1 and isinstance(stmt.targets[0], _ast.Name):
+            v = stmt.value
+            if isinstance(v, _ast.Call) and isinstance(v.func, _ast.Name) and v.func.id == "sum" and len(v.args) == 1 and not v.keywords \
+                    and isinstance(v.args[0], (_ast.GeneratorExp, _ast.ListComp)) and len(v.args[0].generators) == 1 \
+                    and isinstance(v.args[0].generators[0].iter, _ast.Name):
+                sums.setdefault(v.args[0].generators[0].iter.id, []).append(stmt.targets[0].id)
+    loops = C11_roles.loops_of(fn)
+    for k, lp in enumerate(loops):
+        if isinstance(lp, _ast.For) and isinstance(lp.iter, _ast.Name) and len(sums.get(lp.iter.id, [])) >= 2 and lp in fn.body:
+            assigned = {n.id for b in lp.body for n in _ast.walk(b) if isinstance(n, _ast.Name) and isinstance(n.ctx, _ast.Store)}
+            if not assigned & set(sums[lp.iter.id]):
+                return k, {}
+    return None
 
 
 def make_loop_inv(roles):
@@ -133,12 +164,15 @@ def loop_inv(lc, roles):
          "entry_ratio": Ld["max_entry_compression_ratio"].t}
     i = lc.i
     j = z3.Int("j!inv")
+    entries_ok = z3.ForAll([j], z3.Implies(z3.And(j >= 0, j < i), z3.Not(entry_bad(info_at(zf, j), L))),
+                           patterns=[info_at(zf, j)])
+    if not roles:           # totals taken up front (see _upfront_totals): the loop only judges the entries
+        return entries_ok
     return z3.And(
         ops.int_term(lc[roles["file_size"]]) == SU(zf, i),          # the local that accumulates file_size (bound by role)
         ops.int_term(lc[roles["compress_size"]]) == SC(zf, i),     # the local that accumulates compress_size
         SU(zf, i) <= L["total"],
-        z3.ForAll([j], z3.Implies(z3.And(j >= 0, j < i), z3.Not(entry_bad(info_at(zf, j), L))),
-                  patterns=[info_at(zf, j)]),
+        entries_ok,
     )
 
 
@@ -165,7 +199,13 @@ def new_zipfile(ex, st, args, kwargs, node):
         st.assume(t >= 0)
         st.ghost[common.pos_key(src)] = t
     st.ghost["open_zips"] = st.ghost.get("open_zips", frozenset()) | {zf.t.get_id()}
+    _note_opened(st, zf, src)
     return [(st, zf)]
+
+
+def _note_opened(st, zf, src):
+    """ghost: the container views opened on this path and the stream each was opened from (terms kept alive here)."""
+    st.ghost["c11!opened"] = st.ghost.get("c11!opened", ()) + ((zf.t, src.t if isinstance(src, VExt) and src.sort == "BytesIO" else None),)
 
 
 def _fresh_open_zip(ex, st, ctx):
@@ -177,6 +217,7 @@ def _fresh_open_zip(ex, st, ctx):
         t = z3.Int(fresh_name("pos"))
         st.assume(t >= 0)
         st.ghost[common.pos_key(src)] = t
+    _note_opened(st, zf, src)
     return zf
 
 
@@ -309,11 +350,20 @@ def _contracts(reg):
         c.entry.ghost[common.pos_key(c.args["file_like"])] = t
         return lim_req(c)
 
+    def accepted_only(c):
+        # round 6: a normal return means a container view opened FROM THIS STREAM on this path was accepted by the guard
+        # (through validate_zipfile or open_zipfile): a wrapper that swallows the rejection, or validates something else,
+        # returns on a path where no such fact exists.
+        L = limits_of(c)
+        mine = [z for (z, src) in c.st.ghost.get("c11!opened", ()) if src is not None and z3.eq(src, c.args["file_like"].t)]
+        return z3.Or([z3.Not(spec_reject(z, L)) for z in mine] + [z3.BoolVal(False)])
+
     out.append(FnContract(
         target=f"{ZB}::validate_zip_bytesio",
         params=[("file_like", p_ext("BytesIO")), ("limits", limits_param("validate_zip_bytesio")), ("source", p_opt(p_str()))],
         requires=pos_entry,
         ensures=[("position-restored", pos_restored),
+                 ("returns-only-for-an-accepted-container", accepted_only),
                  ("no-container-left-open", lambda c: z3.BoolVal(not c.st.ghost.get("open_zips")))],
         raises=[Raises("Exception", sub=True, label="any failure, position restored, container closed",
                        when=lambda c: z3.And(pos_restored(c), z3.BoolVal(not c.st.ghost.get("open_zips"))))],
@@ -355,6 +405,15 @@ from contracts.C11_flow import policy, propagation, configuration  # noqa: E402
 from pyvc import verify as _verify  # noqa: E402
 
 
+import ast as _ast_mod  # noqa: E402
+
+
+class _C11Body(_ast_mod.stmt):
+    """Marker statement: "the body of the `with` statement runs here" (stands where the `yield` of a generator-based context
+    manager stood; executed by C11Executor.s__C11Body)."""
+    _fields = ("value",)
+
+
 class C11Executor(_verify.Executor):
     """Instances of a `@dataclass(frozen=True)` class of the module (read from the real decorator list) are immutable:
     handing one to a helper inside a loop (`_check_entry(info, limits, source)`) does not havoc it at the loop cut."""
@@ -394,6 +453,10 @@ class C11Executor(_verify.Executor):
                     and not (a.vararg or a.kwarg or a.kwonlyargs or a.posonlyargs) and len(a.args) == len(it.args) and not callee.decorator_list:
                 comp = body[0].value
                 subst = {p.arg: arg.id for p, arg in zip(a.args, it.args)}
+        if comp is None and isinstance(it, _ast.Name):
+            v = st.lookup(it.id)
+            if isinstance(v, VSeq) and isinstance(v.tag, tuple) and v.tag and v.tag[0] == "c11!filtered":
+                comp = v.tag[1]          # the comprehension that built the list, its source re-pointed at the hidden local
         if comp is None:
             comp = self._filter_call_as_genexp(it, st)
         if comp is None or len(comp.generators) != 1:
@@ -589,6 +652,403 @@ class C11Executor(_verify.Executor):
             if v is not None:
                 return [(st, v)]
         return super().e_Name(n, st)
+
+    # -- round 6: a plain class of the guard module (no decorators, no bases but `object`, no metaclass, no `__new__` /
+    #    attribute hooks, class body = docstring, methods and constant attributes) is instantiated as the heap object it is:
+    #    class-level constants, then the REAL `__init__` body inlined.  Used as a context manager (`__enter__` and `__exit__`
+    #    both defined in the class body) the `with` statement runs the real protocol: `__enter__()`, body, `__exit__(type, exc,
+    #    tb)` on every way out of the body (None x 3 on the non-exceptional ones), an exception of the body is swallowed iff
+    #    the value `__exit__` returned is true, an exception of `__exit__` replaces it.  Any other shape: the engine decides.
+    def _plain_class(self, name):
+        import ast as _ast
+        cls = self.module.classes.get(name)
+        if cls is None or cls.decorator_list or cls.keywords or self.uni.known(name) or ("new", name) in self.reg.ext_models:
+            return None
+        if any(not (isinstance(b, _ast.Name) and b.id == "object") for b in cls.bases):
+            return None
+        consts = {}
+        for n in cls.body:
+            if isinstance(n, _ast.Expr) and isinstance(n.value, _ast.Constant):
+                continue
+            if isinstance(n, _ast.Pass):
+                continue
+            if isinstance(n, _ast.FunctionDef):
+                if n.decorator_list or n.name in ("__new__", "__setattr__", "__getattr__", "__getattribute__", "__delattr__",
+                                                  "__init_subclass__", "__set_name__", "__class_getitem__", "__bool__", "__len__", "__eq__"):
+                    return None
+                if n.name in consts:
+                    return None
+                continue
+            if isinstance(n, _ast.AnnAssign) and isinstance(n.target, _ast.Name) and n.value is None:
+                continue
+            tgt = n.targets[0] if isinstance(n, _ast.Assign) and len(n.targets) == 1 else getattr(n, "target", None) if isinstance(n, _ast.AnnAssign) else None
+            if isinstance(tgt, _ast.Name) and isinstance(n.value, _ast.Constant) and tgt.id != "__slots__":
+                consts[tgt.id] = n.value.value
+                continue
+            if isinstance(tgt, _ast.Name) and tgt.id == "__slots__":
+                continue
+            return None
+        names = [n.name for n in cls.body if isinstance(n, _ast.FunctionDef)]
+        if len(set(names)) != len(names) or set(names) & set(consts):
+            return None
+        return cls, consts
+
+    def construct(self, st, t, args, kwargs, node):
+        try:
+            pc = self._plain_class(t.name)
+        except Exception:  # noqa -- not a shape read here: the engine decides
+            pc = None
+        if pc is None:
+            return super().construct(st, t, args, kwargs, node)
+        cls, consts = pc
+        obj = self.new_obj(st, t.name, {k: ops.lift(v) for k, v in consts.items()})
+        if f"{t.name}.__init__" not in self.module.functions:
+            if args or kwargs:
+                self.raise_in(st, self.mk_exc("TypeError"))
+                return []
+            return [(st, obj)]
+        out = []
+        for (s2, rv) in self.obj_method(st, obj, "__init__", list(args), dict(kwargs), node):
+            if isinstance(rv, VNoneT):
+                out.append((s2, obj))
+            else:
+                self.raise_in(s2, self.mk_exc("TypeError"))       # __init__() should return None
+        return out
+
+    def _class_cm(self, item, st):
+        """The with-item's manager is an instance of a plain class of this module that defines the protocol itself: decided
+        before anything is evaluated (constructor call by name, or a local bound to such an object)."""
+        import ast as _ast
+        from pyvc.values import VRef
+        e = item.context_expr
+        name = None
+        if isinstance(e, _ast.Call) and isinstance(e.func, _ast.Name) and st.lookup(e.func.id) is None:
+            name = e.func.id
+        elif isinstance(e, _ast.Name):
+            v = st.lookup(e.id)
+            if isinstance(v, VRef) and v.ref in st.heap and st.obj(v.ref).kind == "obj":
+                name = st.obj(v.ref).cls
+        if name is None or self._plain_class(name) is None:
+            return None
+        fns = self.module.functions
+        if f"{name}.__enter__" not in fns or f"{name}.__exit__" not in fns:
+            return None
+        if self.reg.get(f"{self.module.rel}::{name}.__enter__") is not None or self.reg.get(f"{self.module.rel}::{name}.__exit__") is not None:
+            return None
+        return name
+
+    # -- a function is its body only when nothing decorates it: the inliner refuses any other decorated function (the call is
+    #    then out of the subset: native replay decides) ...
+    def run_body(self, st, fnode, env, static=None):
+        import ast as _ast
+        if isinstance(fnode, (_ast.FunctionDef, _ast.AsyncFunctionDef)):
+            decos = [_ast.unparse(d) for d in fnode.decorator_list]
+            if isinstance(fnode, _ast.AsyncFunctionDef) or any(d != "staticmethod" for d in decos):
+                raise ops.Unsupported(f"{self.module.rel}:{fnode.lineno} decorated function `{fnode.name}` "
+                                      f"(@{', @'.join(decos)[:60]}) is not its body")
+        return super().run_body(st, fnode, env, static)
+
+    # -- ... except a generator under exactly `@contextlib.contextmanager` (resolved through the import table) used as the manager
+    #    of a `with`: the body of the `with` runs where the single `yield` statement stands (same frame discipline as the real
+    #    thing: the generator's locals in its own frame, the body in the caller's), so try / except / finally around the yield
+    #    see the body's exceptions exactly as `gen.throw` delivers them.  Recognised only when the yield is one expression
+    #    statement reached unconditionally (through `try:` bodies and `with` bodies only), there is no other yield and no
+    #    `return` in the generator; a body that leaves by return / break / continue is not read this way (`unknown`).
+    def _generator_cm(self, item, st):
+        import ast as _ast
+        import copy
+        e = item.context_expr
+        if not (isinstance(e, _ast.Call) and isinstance(e.func, _ast.Name) and st.lookup(e.func.id) is None
+                and not any(isinstance(a, _ast.Starred) for a in e.args) and all(k.arg for k in e.keywords)):
+            return None
+        fnode = self.module.functions.get(e.func.id)
+        if not isinstance(fnode, _ast.FunctionDef) or len(fnode.decorator_list) != 1 or self.reg.get(f"{self.module.rel}::{e.func.id}") is not None:
+            return None
+        d = fnode.decorator_list[0]
+        imps = self.module.imports
+        dotted = imps.get(d.id) if isinstance(d, _ast.Name) else \
+            f"{imps.get(d.value.id)}.{d.attr}" if isinstance(d, _ast.Attribute) and isinstance(d.value, _ast.Name) and d.value.id in imps else None
+        if dotted != "contextlib.contextmanager" or (isinstance(d, _ast.Name) and (d.id in self.module.functions or d.id in self.module.assigns)):
+            return None
+        cache = self.__dict__.setdefault("_gencm", {})
+        if id(fnode) in cache:
+            return cache[id(fnode)][1]
+        g2 = None
+        inner = [n for n in _ast.walk(fnode) if n is not fnode]
+        ys = [n for n in inner if isinstance(n, (_ast.Yield, _ast.YieldFrom, _ast.Await))]
+        bad = [n for n in inner if isinstance(n, (_ast.Return, _ast.FunctionDef, _ast.AsyncFunctionDef, _ast.Lambda, _ast.ClassDef,
+                                                  _ast.Global, _ast.Nonlocal))]
+        if len(ys) == 1 and isinstance(ys[0], _ast.Yield) and not bad:
+            g2 = copy.deepcopy(fnode)
+            g2.decorator_list = []
+
+            def place(stmts):
+                for k, x in enumerate(stmts):
+                    if isinstance(x, _ast.Expr) and isinstance(x.value, _ast.Yield):
+                        m = _C11Body(value=x.value.value)
+                        _ast.copy_location(m, x)
+                        stmts[k] = m
+                        return m
+                    if isinstance(x, (_ast.Try, _ast.With)):
+                        m = place(x.body)
+                        if m is not None:
+                            return m
+                    if any(isinstance(y, _ast.Yield) for y in _ast.walk(x)):
+                        return None
+                return None
+            if place(g2.body) is None:
+                g2 = None
+        cache[id(fnode)] = (fnode, g2)
+        return g2
+
+    def s__C11Body(self, s, st):
+        from pyvc.symex import Outcome
+        w, item = self._gencm_with[-1]
+        outs = []
+        for (s2, val) in (self.ev(s.value, st) if s.value is not None else [(st, NONE)]):
+            gen_fr = s2.frames.pop()
+            fn_top = self.cur_fn_stack.pop()
+            self.inline_depth -= 1
+            hid = self._gencm_with.pop()
+            try:
+                starts = self.assign(item.optional_vars, val, s2) if item.optional_vars is not None else [s2]
+                res = [o for s3 in starts for o in self.exec_block(w.body, s3)]
+            finally:
+                self._gencm_with.append(hid)
+                self.inline_depth += 1
+                self.cur_fn_stack.append(fn_top)
+                s2.frames.append(gen_fr)
+            for o in res:
+                if o.st is not s2:
+                    o.st.frames.append(gen_fr.copy())
+                if o.kind not in ("fall", "raise"):
+                    self.unsupported(w, f"`with` body leaves a generator-based context manager by {o.kind}")
+                outs.append(o)
+        return outs
+
+    def s_With(self, s, st):
+        import ast as _ast
+        from pyvc.symex import Outcome
+        from pyvc.values import VRef, VExc
+        try:
+            gen = [self._generator_cm(it, st) for it in s.items] if not isinstance(s, _ast.AsyncWith) else []
+        except Exception:  # noqa -- not a shape read here: the engine decides
+            gen = []
+        if any(g is not None for g in gen):
+            if len(s.items) > 1:          # `with A, B: body` is `with A: with B: body`
+                inner = _ast.With(items=list(s.items[1:]), body=list(s.body), type_comment=None)
+                _ast.copy_location(inner, s)
+                outer = _ast.With(items=[s.items[0]], body=[inner], type_comment=None)
+                _ast.copy_location(outer, s)
+                return self.s_With(outer, st)
+            item, g2 = s.items[0], gen[0]
+            call = item.context_expr
+            stack = self.__dict__.setdefault("_gencm_with", [])
+            outs = []
+            for (s2, args) in self.ev_list(call.args, st):
+                for (s3, kwvals) in self.ev_list([k.value for k in call.keywords], s2):
+                    env = self.bind_params(g2, args, {k.arg: v for k, v in zip(call.keywords, kwvals)}, call)
+                    stack.append((s, item))
+                    try:
+                        res = self.run_body(s3, g2, env, None)
+                    finally:
+                        stack.pop()
+                    outs.extend(Outcome("fall", s4) for (s4, _v) in res)
+            return outs
+        try:
+            hit = [self._class_cm(it, st) for it in s.items]
+        except Exception:  # noqa -- not a shape read here: the engine decides
+            hit = [None]
+        if not any(hit) or any(getattr(it, "is_async", False) for it in s.items):
+            return super().s_With(s, st)
+        if len(s.items) > 1:          # `with A, B: body` is `with A: with B: body`
+            inner = _ast.With(items=list(s.items[1:]), body=list(s.body), type_comment=None)
+            _ast.copy_location(inner, s)
+            outer = _ast.With(items=[s.items[0]], body=[inner], type_comment=None)
+            _ast.copy_location(outer, s)
+            return self.s_With(outer, st)
+        item = s.items[0]
+        outs = []
+        for (s2, cm) in self.ev(item.context_expr, st):
+            if not (isinstance(cm, VRef) and s2.obj(cm.ref).kind == "obj" and s2.obj(cm.ref).cls == hit[0]):
+                self.unsupported(item.context_expr, "context manager is not the instance its constructor call announced")
+            for (s3, val) in self.obj_method(s2, cm, "__enter__", [], {}, item.context_expr):
+                starts = self.assign(item.optional_vars, val, s3) if item.optional_vars is not None else [s3]
+                for s4 in starts:
+                    for o in self.exec_block(s.body, s4):
+                        prev = o.st.cur_exc
+                        if o.kind == "raise" and isinstance(o.val, VExc):
+                            eargs = [VExt("ExcType"), o.val, VExt("Traceback")]
+                            o.st.cur_exc = o.val
+                        elif o.kind == "raise":
+                            self.unsupported(s, "exception value of the with body is not an exception object")
+                        else:
+                            eargs = [NONE, NONE, NONE]
+                        for (s5, rv) in self.obj_method(o.st, cm, "__exit__", eargs, {}, item.context_expr):
+                            if o.kind != "raise":
+                                outs.append(Outcome(o.kind, s5, o.val))
+                                continue
+                            s5.cur_exc = prev
+                            for (s6, swallowed) in self.fork_truth(s5, rv):
+                                outs.append(Outcome("fall", s6) if swallowed else Outcome("raise", s6, o.val))
+        return outs
+
+    # -- round 6: `sum(<comprehension over the entry sequence>)` is a fold over the central directory: a spec function
+    #    FOLD(z, i) = FOLD(z, i-1) + contribution(entry i-1), the contribution read by executing the REAL element expression (and
+    #    filters) on the symbolic entry.  The fold is tied to the spec total it stands for (SU / SC: the field it agrees with on
+    #    non-directory entries) by an induction schema emitted as obligations of the function (`lemma#upfront-total-of-<field>-
+    #    equals-spec-total.base/.step`), then assumed at i = n.  A fold that counts directory records fails the step.
+    def _upfront_sum(self, n, st):
+        import ast as _ast
+        if not (isinstance(n.func, _ast.Name) and n.func.id == "sum" and len(n.args) == 1 and not n.keywords
+                and isinstance(n.args[0], (_ast.GeneratorExp, _ast.ListComp)) and st.lookup("sum") is None
+                and "sum" not in self.module.functions and "sum" not in self.module.assigns and "sum" not in self.module.imports):
+            return None
+        comp = n.args[0]
+        if len(comp.generators) != 1:
+            return None
+        g = comp.generators[0]
+        if g.is_async or not isinstance(g.target, _ast.Name) or not isinstance(g.iter, _ast.Name):
+            return None
+        seq = st.lookup(g.iter.id)
+        if not (isinstance(seq, VSeq) and seq.ekind == "ZipInfo" and z3.is_app(seq.length) and seq.length.decl().name() == "zip_n"):
+            return None
+        zf = seq.length.arg(0)
+        k = z3.Int(fresh_name("k!fold"))
+        probe = st.fork()
+        base = len(probe.pc)
+        probe.assume(z3.And(k >= 0, k < n_of(zf)))
+        probe.frames.append(type(probe.frames[-1])({g.target.id: VExt("ZipInfo", info_at(zf, k))}, len(probe.frames) - 1, None))
+        self.sinks.append([])
+        try:
+            outs = []
+            live = [(probe, z3.BoolVal(True))]
+            for c in g.ifs:
+                nxt = []
+                for (s1, cond) in live:
+                    for (s2, v) in self.ev(c, s1):
+                        nxt.append((s2, z3.And(cond, self.truth(s2, v).t)))
+                live = nxt
+            for (s1, cond) in live:
+                for (s2, v) in self.ev(comp.elt, s1):
+                    if not isinstance(v, (VInt, VBool)):
+                        self.unsupported(n, "sum over the entry sequence: element is not an integer")
+                    outs.append((z3.And(s2.pc[base + 1:] + [z3.BoolVal(True)]), cond, ops.int_term(v)))
+        finally:
+            raised = self.sinks.pop()
+        if raised or not outs:
+            self.unsupported(n, "sum over the entry sequence: the element expression may raise / has no value")
+        contrib_k = z3.IntVal(0)
+        for (path, cond, t) in reversed(outs):
+            contrib_k = z3.If(path, z3.If(cond, t, 0), contrib_k)
+        contrib_k = z3.simplify(contrib_k)
+        e = info_at(zf, k)
+        nn = [k >= 0, k < n_of(zf), fs(e) >= 0]
+        field = None
+        for name, F in (("file_size", fs), ("compress_size", cs)):
+            if not self.feasible(nn + [z3.Not(isdir(e))], contrib_k != F(e)):
+                field = name
+                break
+        if field is None:
+            self.unsupported(n, "sum over the entry sequence: not the total of file_size or compress_size of the entries")
+        S = SU if field == "file_size" else SC
+        FOLD = z3.RecFunction(fresh_name(f"FOLD_{field}"), ZipFile, I, I)
+        zv, iv = z3.Const("z!fold", ZipFile), z3.Int("i!fold")
+        z3.RecAddDefinition(FOLD, [zv, iv], z3.If(iv <= 0, 0, FOLD(zv, iv - 1) + z3.substitute(contrib_k, (k, iv - 1), (zf, zv))))
+        b = z3.Int(fresh_name("b!fold"))
+        eb = info_at(zf, b)
+        label = f"upfront-total-of-{field}-equals-spec-total"
+        self.add_vc("lemma", label + ".base", [], FOLD(zf, 0) == S(zf, 0), loc=self.loc(n))
+        self.add_vc("lemma", label + ".step", [b >= 0, b < n_of(zf), fs(eb) >= 0, FOLD(zf, b) == S(zf, b)],
+                    FOLD(zf, b + 1) == S(zf, b + 1), loc=self.loc(n))
+        st.ghost.setdefault("c11!folds", ())
+        st.ghost["c11!folds"] = st.ghost["c11!folds"] + (FOLD,)          # keeps the declaration alive
+        st.assume(FOLD(zf, n_of(zf)) == S(zf, n_of(zf)))
+        return [(st, VInt(FOLD(zf, n_of(zf))))]
+
+    # -- round 6: `[x for x in ENTRIES if C(x)]` bound to a name is the filtered view of the entry sequence: its length is the
+    #    spec count CNT(z, n) of the entries that pass the REAL filter (executed on the symbolic entry; 0 <= CNT(z, i) <= i by an
+    #    induction schema emitted as obligations), a `for` over it runs as the loop-with-continue over the source (_filter_loop),
+    #    anything else done with it (indexing, mutation) is not read.  The filter may only call functions under a verified contract.
+    def e_ListComp(self, n, st):
+        try:
+            r = self._filtered_view(n, st)
+        except ops.Unsupported:
+            raise
+        except Exception:  # noqa -- not a shape read here: the engine decides
+            r = None
+        if r is not None:
+            return r
+        return super().e_ListComp(n, st)
+
+    def _filtered_view(self, n, st):
+        import ast as _ast
+        import copy
+        if len(n.generators) != 1:
+            return None
+        g = n.generators[0]
+        if g.is_async or not g.ifs or not isinstance(g.target, _ast.Name) or not isinstance(n.elt, _ast.Name) or n.elt.id != g.target.id \
+                or not isinstance(g.iter, _ast.Name):
+            return None
+        seq = st.lookup(g.iter.id)
+        if not (isinstance(seq, VSeq) and seq.ekind == "ZipInfo" and seq.tag is None and z3.is_app(seq.length) and seq.length.decl().name() == "zip_n"):
+            return None
+        for c in g.ifs:
+            for x in _ast.walk(c):
+                if isinstance(x, _ast.Call) and not (isinstance(x.func, _ast.Name) and self.reg.get(f"{self.module.rel}::{x.func.id}") is not None):
+                    return None
+        zf = seq.length.arg(0)
+        k = z3.Int(fresh_name("k!cnt"))
+        probe = st.fork()
+        base = len(probe.pc)
+        probe.assume(z3.And(k >= 0, k < n_of(zf)))
+        probe.frames.append(type(probe.frames[-1])({g.target.id: VExt("ZipInfo", info_at(zf, k))}, len(probe.frames) - 1, None))
+        self.sinks.append([])
+        try:
+            live = [(probe, z3.BoolVal(True))]
+            for c in g.ifs:
+                nxt = []
+                for (s1, cond) in live:
+                    for (s2, v) in self.ev(c, s1):
+                        nxt.append((s2, z3.And(cond, self.truth(s2, v).t)))
+                live = nxt
+        finally:
+            raised = self.sinks.pop()
+        if raised or not live:
+            self.unsupported(n, "filter over the entry sequence may raise / has no value")
+        keep_k = z3.BoolVal(False)
+        for (s2, cond) in live:
+            keep_k = z3.Or(keep_k, z3.And(s2.pc[base + 1:] + [cond]))
+        keep_k = z3.simplify(keep_k)
+        CNT = z3.RecFunction(fresh_name("CNT"), ZipFile, I, I)
+        zv, iv = z3.Const("z!cnt", ZipFile), z3.Int("i!cnt")
+        z3.RecAddDefinition(CNT, [zv, iv], z3.If(iv <= 0, 0, CNT(zv, iv - 1) + z3.If(z3.substitute(keep_k, (k, iv - 1), (zf, zv)), 1, 0)))
+        b = z3.Int(fresh_name("b!cnt"))
+        self.add_vc("lemma", "filtered-entry-count-within-record-count.base", [], CNT(zf, 0) == 0, loc=self.loc(n))
+        self.add_vc("lemma", "filtered-entry-count-within-record-count.step", [b >= 0, CNT(zf, b) >= 0, CNT(zf, b) <= b],
+                    z3.And(CNT(zf, b + 1) >= 0, CNT(zf, b + 1) <= b + 1), loc=self.loc(n))
+        nz = n_of(zf)
+        st.assume(z3.And(CNT(zf, nz) >= 0, CNT(zf, nz) <= nz))
+        hidden = f"__c11_src_{n.lineno}_{n.col_offset}"
+        st.bind(hidden, seq)
+        comp = copy.deepcopy(n)
+        comp.generators[0].iter = _ast.copy_location(_ast.Name(id=hidden, ctx=_ast.Load()), g.iter)
+
+        def elem(_i):
+            raise ops.Unsupported(f"{self.loc(n)} element access on a filtered entry list")
+        st.ghost["c11!folds"] = st.ghost.get("c11!folds", ()) + (CNT,)
+        return [(st, VSeq(CNT(zf, nz), elem, "ZipInfo", tag=("c11!filtered", comp)))]
+
+    def e_Call(self, n, st):
+        try:
+            r = self._upfront_sum(n, st)
+        except ops.Unsupported:
+            raise
+        except Exception as e:  # noqa -- not a shape read here: the engine decides
+            r = None
+        if r is not None:
+            return r
+        return super().e_Call(n, st)
 
     def mutated_refs(self, stmts, st):
         refs = super().mutated_refs(stmts, st)
